@@ -1,5 +1,6 @@
 import os, re
-from checks.generic import standard
+from checks.generic import standard, first_index
+from checks import c16
 
 # classes of Model/SessionObs.v `viol_class`: the conclusion of a soundness theorem evaluated on the observed
 # output of the first deviating step of a mismatching history
@@ -27,7 +28,43 @@ def violating(ctx, res):
         ctx.hits.append({"key": "C05:model-oracle:" + name, "oracle": "Model.SessionObs.violation (the property's predicate on the observed outputs, model as reference)",
                          "what": what, "case": lines[i] if i < len(lines) else "case %d" % i})
 
+def concurrent_cases(ctx, res0):
+    """the concurrent stage (harness/kmd/c05conc.go): right value || wrong value under every schedule, then the
+       right value again — evaluated against Model.Session / Model.SessionPure in its own case file"""
+    vfile = os.path.join(ctx.work, "CasesC05C.v")
+    if not os.path.exists(vfile):
+        ctx.obligations.append(("corr:concurrent stage", False, "CasesC05C.v was not written"))
+        ctx.broken.append(("correspondence", "c05c_mismatches", "the concurrent stage did not run"))
+        return
+    res = ctx.eval_cases(vfile, "CasesC05C.v")
+    if res is None:
+        return
+    n = res.get("c05c_ncases", "?")
+    mism = res.get("c05c_mismatches")
+    label = "right value || wrong value for the same user under every schedule of the storage operations, then the right value again on a fresh session: single use as Model.Session + c05_failed_attempt_commutes say (%s schedules)" % n
+    idxp = os.path.join(ctx.work, "CasesC05C.idx")
+    lines = open(idxp).read().split("\n") if os.path.exists(idxp) else []
+    if mism == "[]" and n not in ("0", "?"):
+        ctx.obligations.append(("corr:" + label, True, "no mismatch"))
+    else:
+        ctx.obligations.append(("corr:" + label, False, "mismatch indices %s" % (mism or "missing")[:200]))
+        i = first_index(mism)
+        ctx.broken.append(("correspondence", "c05c_mismatches", {"label": label, "first_mismatch": lines[i] if i is not None and i < len(lines) else None, "indices": (mism or "")[:400]}))
+    viol = res.get("c05c_violating") or "[]"
+    for m in re.findall(r"\d+", viol)[:3]:
+        i = int(m)
+        ctx.hits.append({"key": "C05:model-oracle:spent-value-after-overlap", "oracle": "CasesC05C.v c05c_violating (single use evaluated on the observed answers, Model.Session as reference)",
+                         "what": "a one-time value raised two sessions (or a wrong value raised one) although the only thing that overlapped with its acceptance was a refused attempt, which c05_failed_attempt_pure says changes nothing",
+                         "case": lines[i] if i < len(lines) else "case %d" % i})
+
 def run(ctx):
+    # the storage functions and the Lock calls of the two-factor files get C16's parking points (no-ops unless a
+    # schedule is being replayed): the concurrent stage of the harness needs them
+    overlay, counts = c16.instrument(ctx)
+    good = counts.get("storage.go") == 3
+    ctx.obligations.append(("instrumentation: parking points inserted %s" % counts, good, "storage.go needs 3"))
+    if not good:
+        ctx.broken.append(("correspondence", "instrumentation", "could not find LoadUserProfile/SaveUserProfile/DeleteUserProfile in storage.go: %s" % counts))
     # evaluate c05_violating right after the case file was compiled (generic.standard has no hook for it)
     eval_cases = ctx.eval_cases
     def eval_and_classify(*a, **kw):
@@ -42,14 +79,19 @@ def run(ctx):
                               "c05_cached_no_write", "c05_cached_no_cross_user", "c05_cached_expired", "c05_old_cached_totp_refuted",
                               "c05_profile_exact", "c05_profile_save", "c05_profile_order", "c05_profile_users", "c05_like_lookup_refuted",
                               "c05_old_poll_refuted", "c05_old_totp_replay_refuted", "c05_old_challenge_refuted", "c05_old_cert_cookie_refuted",
-                              "c05_cookie_expired", "c05_first_cookie_refuted", "c05_old_vip_expiry_refuted"])],
-        harness=("TestVerif_C05", ["kmd/common.go", "kmd/creds.go", "kmd/consts.go", "kmd/c05.go"]),
-        cases=("CasesC05.v", [("c05_mismatches", "per-step (success, subject, level, iat, exp, id of the one-time value handed out) of every history: real handlers = Model.Session over the profile table of Model.Profiles")], "CasesC05.idx"),
-        trusted=["external verifiers are environment: the fake VIP endpoint, the TOTP algorithm (pquerna/otp), ECDSA / the U2F and WebAuthn libraries decide whether a presented value is right; the model carries their answer and whom it is about",
+                              "c05_cookie_expired", "c05_first_cookie_refuted", "c05_old_vip_expiry_refuted",
+                              "c05_failed_attempt_pure", "c05_failed_attempt_commutes",
+                              "c05_address_irrelevant", "c05_address_run", "c05_totp_guard_once", "c05_totp_guard_once_nth", "c05_totp_guard_is_session", "c05_guard_by_address_refuted"])],
+        harness=("TestVerif_C05", ["kmd/common.go", "kmd/creds.go", "kmd/consts.go", "kmd/c05.go", "kmd/c05conc.go", "kmd/c16.go", "kmd/c16_stall.go"]),
+        extra_overlay=overlay, post_cases=concurrent_cases,
+        cases=("CasesC05.v", [("c05_mismatches", "per-step (success, subject, level, iat, exp, id of the one-time value handed out) of every history: real handlers driven from eight client addresses = Model.Session over the profile table of Model.Profiles, evaluated on the (address, operation) list by Model.SessionAddr.run_obs_at")], "CasesC05.idx"),
+        trusted=["concurrent stage: interleavings at the granularity of one storage operation / one critical section (C16's trusted granularity: atomicity of one SQL statement and of one map access under its mutex); the instrumented copies of storage.go / 2fa_*.go generated at check time differ from the tree's files only by inserted verifYield(..) calls (lib/checks/c16.py instrument); the deterministic scheduler of harness/kmd/c16.go",
+                 "external verifiers are environment: the fake VIP endpoint, the TOTP algorithm (pquerna/otp), ECDSA / the U2F and WebAuthn libraries decide whether a presented value is right; the model carries their answer and whom it is about",
                  "time steps are simulated by moving what the handlers read (LastSuccessfullTOTPCounter, BootstrapOTP.ExpiresAt, localAuthData.ExpiresAt); the per-user TOTP throttle (C14) is cleared before every TOTP attempt",
                  "what clients hold ages with the simulated clock too: on a time step every issued auth cookie and CLI token is re-signed by the harness with iat/nbf/exp moved back (same claims otherwise, server key)",
                  "the Okta authn API is a fake (state tokens, pass codes, push approval as the harness decides); its cached answers age by moving recentAuth[*].expires through reflect/unsafe",
                  "a request 'served from the cache' = the cache database refreshed from the primary immediately before, and remoteDBQueryTimeout = 0 for the duration of the request",
+                 "the client address is an opaque number for the model, which ignores it by construction (Model.SessionAddr.step_at); the harness stands for 'any address' with eight RemoteAddr / forwarding-header combinations (another host, the same host with another port, IPv6, X-Forwarded-For, X-Real-IP, Forwarded, a local proxy), one random request in four; client certificates of the `Req cert` modifier are ordinary user certificates (no IP restriction: that path of checkAuth is C06/C11)",
                  "one-time values are identified by content: the harness numbers the distinct challenge / OTP / transaction byte strings in order of first appearance (two different values never collide: 32 random bytes)"],
         assumptions=["signatures are unforgeable: the adversary attaches only cookies / tokens the server issued (by position in the list of everything issued)"],
         timeout=1500)
